@@ -4,7 +4,7 @@
    findings/C04.json; leaves regenerated into Gen/C04.v);
    S = Spec/GitTree.v (git 2.39 ls-tree / fsck --strict, validated against the binary). *)
 From Coq Require Import List NArith ZArith Bool String.
-From GoGit Require Import Base.Out Gen.C04 Model.TreeObj Spec.GitTree Proofs.C04.
+From GoGit Require Import Base.Out Gen.C04 Model.TreeObj Spec.GitTree Proofs.C04 Proofs.C04Utf8 Proofs.C04Hfs Proofs.C04Ntfs Proofs.C04Dot.
 Import ListNotations.
 Local Open Scope N_scope.
 
@@ -22,6 +22,15 @@ Theorem C04_git_decode : forall b es,
   git_ls_tree 20 b = inr es -> decode 20 b = inr es.
 Proof. exact git_is_decode. Qed.
 Print Assumptions C04_git_decode.
+
+(* ... and the 7-digit limit of filemode.FromBytes is the ONLY difference between
+   the two readers: whenever git lists a tree, go-git decodes it if and only if
+   no mode field has more than 7 digits (then to the same entries, by the two
+   theorems above; otherwise Tree.Decode fails: known finding mode-over-7-digits) *)
+Theorem C04_git_decode_exact : forall b rs, git_parse 20 b = inr rs ->
+  ((exists es, decode 20 b = inr es) <-> short_modes rs = true).
+Proof. exact git_decode_exact. Qed.
+Print Assumptions C04_git_decode_exact.
 
 (* mode canonicalisation is git's canon_mode, for every 32-bit (indeed every) mode *)
 Theorem C04_canon_is_git : forall m, treeobj_canonicalTreeMode m = canon_mode m.
@@ -44,27 +53,129 @@ Theorem C04_enc_dec : forall es b,
 Proof. exact enc_dec. Qed.
 Print Assumptions C04_enc_dec.
 
-(* 3. Written trees and git fsck --strict.  Everything Encode accepts is free of
-   the structural errors: nullSha1, fullPathname, hasDot, hasDotdot,
-   zeroPaddedFilemode, duplicateEntries (incl. the d/f name stack), treeNotSorted,
-   and git can parse it (no badTree) *)
-Theorem C04_written_clean_partial : forall es b,
+(* 3. The name detectors.  go-git's pathutil.IsHFSDot is git's is_hfs_dot_generic
+   (utf8.c: pick_one_utf8_char, next_hfs_char with its own list of 16 ignored
+   code points — Spec/GitTree.v shares nothing with the model here) on every
+   well-formed UTF-8 byte string without NUL and '/', for EVERY needle.
+   wf_utf8 = git's own notion: pick_one_utf8_char never reports an invalid
+   sequence (overlongs, surrogates, > U+10FFFF, U+FFFE/U+FFFF rejected). *)
+Theorem C04_hfs_dot_eq_git : forall name needle,
+  is_bytes name = true -> utf8_guard name = true -> tlacks 0 name = true -> tlacks 47 name = true ->
+  is_hfs_dot name needle = git_is_hfs_dot name needle.
+Proof. exact hfs_dot_eq_git2. Qed.
+Print Assumptions C04_hfs_dot_eq_git.
+
+(* utf8_guard name = wf_utf8 name || "the first non-ignored character is not '.'":
+   well-formedness is only asked of names that start like a dot-file *)
+Theorem C04_wf_utf8_guard : forall name, wf_utf8 name = true -> utf8_guard name = true.
+Proof. exact wf_utf8_guard. Qed.
+Print Assumptions C04_wf_utf8_guard.
+
+(* without well-formedness only one inclusion survives: what go-git calls
+   .<needle> git does too *)
+Theorem C04_hfs_dot_sound : forall name needle,
+  is_bytes name = true -> is_hfs_dot name needle = true -> git_is_hfs_dot name needle = true.
+Proof. exact hfs_dot_le_git. Qed.
+Print Assumptions C04_hfs_dot_sound.
+
+(* ... and the other inclusion fails exactly on a malformed tail, which git reads
+   as the end of the string (known finding hfs-dotgit-malformed-tail):
+   ".git\xff" and ".git" + EF BF BE (U+FFFE) *)
+Theorem C04_hfs_dot_malformed_refuted :
+  let ff := [46; 103; 105; 116; 255] in
+  let fffe := [46; 103; 105; 116; 239; 191; 190] in
+  (wf_utf8 ff = false /\ is_hfs_dot ff N_git = false /\ git_is_hfs_dot ff N_git = true) /\
+  (wf_utf8 fffe = false /\ is_hfs_dot fffe N_git = false /\ git_is_hfs_dot fffe N_git = true).
+Proof. exact hfs_dot_malformed. Qed.
+Print Assumptions C04_hfs_dot_malformed_refuted.
+
+(* IsNTFSDotGit is git's is_ntfs_dotgit on a single path component (git's loop
+   also stops at the two separators, go-git splits the name there beforehand) *)
+Theorem C04_ntfs_dotgit_eq_git : forall p,
+  tlacks 47 p = true -> tlacks 92 p = true -> is_ntfs_dotgit p = git_is_ntfs_dotgit p.
+Proof. exact ntfs_dotgit_eq_git. Qed.
+Print Assumptions C04_ntfs_dotgit_eq_git.
+
+(* IsNTFSDot is git's is_ntfs_dot_generic (path.c, transcribed index-wise over a
+   NUL-terminated string: strncasecmp, the only_spaces_and_periods loop, the
+   fall-back short-name loop with saw_tilde), for every NUL-free byte string and
+   every needle pair of the shape of git's four (ASCII name of >= 6 bytes,
+   prefix of >= 6 bytes, neither starting with a period) *)
+Theorem C04_ntfs_dot_eq_git : forall name dotgit short,
+  is_bytes name = true -> tlacks 0 name = true -> ntfs_needles_ok dotgit short = true ->
+  is_ntfs_dot name dotgit short = git_is_ntfs_dot_generic name dotgit short.
+Proof. exact ntfs_dot_eq. Qed.
+Print Assumptions C04_ntfs_dot_eq_git.
+
+Example C04_needles_ok :
+  ntfs_needles_ok N_gitmodules S_gi7eba = true /\ ntfs_needles_ok N_gitattributes S_gi7d29 = true /\
+  ntfs_needles_ok N_gitignore S_gi250a = true /\ ntfs_needles_ok N_mailmap S_maba30 = true.
+Proof. exact needles_ok_all. Qed.
+
+(* whole names.  ValidTreePath splits the name at '/' and '\' and tests every
+   field; fsck_tree tests the whole name with is_hfs_dotgit and is_ntfs_dotgit,
+   and is_ntfs_dotgit again on every suffix that follows a backslash.  Whatever
+   ValidTreePath accepts, git does not report as hasDotgit. *)
+Theorem C04_has_dotgit_refused : forall n,
+  is_bytes n = true -> utf8_guard n = true -> tlacks 0 n = true -> tlacks 47 n = true ->
+  valid_tree_path n = true -> git_has_dotgit n = false.
+Proof. exact has_dotgit_refused. Qed.
+Print Assumptions C04_has_dotgit_refused.
+
+(* git's .gitmodules verdict on a name, in go-git's terms: the two whole-name
+   tests of Validate plus the one it does not make (NTFS variants after a backslash) *)
+Theorem C04_dotgitmodules_eq : forall n,
+  is_bytes n = true -> utf8_guard n = true -> tlacks 0 n = true -> tlacks 47 n = true ->
+  git_is_dotgitmodules n =
+  is_hfs_dot n N_gitmodules || is_ntfs_dot n N_gitmodules S_gi7eba || ntfs_gitmodules_after_backslash n.
+Proof. exact dotgitmodules_eq. Qed.
+Print Assumptions C04_dotgitmodules_eq.
+
+Theorem C04_dotgitmodules_symlink : forall n,
+  is_bytes n = true -> utf8_guard n = true -> tlacks 0 n = true -> tlacks 47 n = true -> tlacks 92 n = true ->
+  git_is_dotgitmodules n = true -> dot_symlink_name n = true.
+Proof. exact dotgitmodules_symlink. Qed.
+Print Assumptions C04_dotgitmodules_symlink.
+
+(* 4. Written trees and git fsck --strict.  Everything Encode accepts is free of
+   the structural errors, with no condition on the names: nullSha1, fullPathname,
+   hasDot, hasDotdot, zeroPaddedFilemode, duplicateEntries (incl. the d/f name
+   stack), treeNotSorted, and git can parse it (no badTree) *)
+Theorem C04_written_clean_structural : forall es b,
   Forall (fun e => List.length (t_hash e) = 20%nat) es ->
   encode es = Some b ->
   forallb (fun m => negb (structural m)) (git_fsck_tree 20 b) = true.
 Proof. exact written_clean_structural. Qed.
+Print Assumptions C04_written_clean_structural.
+
+(* ... and fsck --strict reports NOTHING when every name that starts like a
+   dot-file is well-formed UTF-8 (utf8_guard) and no symlink has an NTFS variant
+   of .gitmodules after a backslash (name_guard, boolean).  Both conditions are needed: the witnesses
+   below are written trees that fail exactly one of them. *)
+Theorem C04_written_clean_partial : forall es b,
+  Forall (fun e => List.length (t_hash e) = 20%nat) es ->
+  encode es = Some b -> forallb name_guard es = true ->
+  git_fsck_tree 20 b = [].
+Proof. exact written_clean_wf. Qed.
 Print Assumptions C04_written_clean_partial.
 
-(* ... but NOT free of hasDotgit: the full statement "fsck reports nothing" is
-   false of the code as it is (known finding hfs-dotgit-malformed-tail).  What is
-   missing for the full theorem: IsHFSDot / IsNTFSDotGit cover git's
-   is_hfs_dotgit / is_ntfs_dotgit only on well-formed UTF-8 (exercised by the
-   correspondence, not proved). *)
+(* the full statement "fsck reports nothing" is false of the code as it is
+   (known finding hfs-dotgit-malformed-tail): a malformed tail after .git *)
 Definition w_dotgit_ff : list tentry := [mkT 33188 [46; 103; 105; 116; 255] (repeat 7 20)].
 Theorem C04_written_clean_refuted :
+  forallb name_guard w_dotgit_ff = false /\
   exists b, encode w_dotgit_ff = Some b /\ git_fsck_tree 20 b = [MHasDotgit].
-Proof. eexists. split; vm_compute; reflexivity. Qed.
+Proof. split; [vm_compute; reflexivity|]. eexists. split; [vm_compute; reflexivity|]. vm_compute. reflexivity. Qed.
 Print Assumptions C04_written_clean_refuted.
+
+(* ... the same with .gitmodules for a symlink *)
+Definition w_gitmodules_ff : list tentry :=
+  [mkT 40960 [46; 103; 105; 116; 109; 111; 100; 117; 108; 101; 115; 255] (repeat 7 20)].
+Theorem C04_written_gitmodules_malformed_refuted :
+  forallb name_guard w_gitmodules_ff = false /\
+  exists b, encode w_gitmodules_ff = Some b /\ git_fsck_tree 20 b = [MGitmodulesSymlink].
+Proof. split; [vm_compute; reflexivity|]. eexists. split; [vm_compute; reflexivity|]. vm_compute. reflexivity. Qed.
+Print Assumptions C04_written_gitmodules_malformed_refuted.
 
 (* go-git's adjacent sort test implies git's verify_ordered is satisfied *)
 Theorem C04_sort_is_git_order : forall a b st,
@@ -76,7 +187,7 @@ Proof.
 Qed.
 Print Assumptions C04_sort_is_git_order.
 
-(* 4. Never refuses: any duplicate-free set of entries that pass the per-entry
+(* 5. Never refuses: any duplicate-free set of entries that pass the per-entry
    rules is accepted once sorted with TreeEntrySorter — no order, no pair of
    names (file/directory prefixes included) makes Validate refuse *)
 Theorem C04_never_refuses : forall es,
@@ -109,10 +220,27 @@ Example C04_example :
   match encode (sort_entries es) with Some b => git_fsck_tree 20 b = [] | None => False end.
 Proof. vm_compute. repeat split. Qed.
 
-(* ... nor of gitmodulesSymlink (known finding gitmodules-symlink-after-backslash) *)
+(* ... a well-formed name that fails the second half of name_guard (known finding
+   gitmodules-symlink-after-backslash) *)
 Definition w_gitmodules_bs : list tentry :=
   [mkT 40960 [120; 92; 46; 103; 105; 116; 109; 111; 100; 117; 108; 101; 115] (repeat 7 20)].
 Theorem C04_written_gitmodules_refuted :
+  forallb name_guard w_gitmodules_bs = false /\
   exists b, encode w_gitmodules_bs = Some b /\ git_fsck_tree 20 b = [MGitmodulesSymlink].
-Proof. eexists. split; vm_compute; reflexivity. Qed.
+Proof. split; [vm_compute; reflexivity|]. eexists. split; [vm_compute; reflexivity|]. vm_compute. reflexivity. Qed.
 Print Assumptions C04_written_gitmodules_refuted.
+
+(* non-vacuity of the guard: multi-byte UTF-8 of every length, HFS-ignorable code
+   points inside ordinary names, a symlink with a backslash, a regular file named
+   like an NTFS .gitmodules variant after a backslash *)
+Example C04_guard_example :
+  let es := sort_entries
+            [mkT 33188 [195; 169] (repeat 1 20);                                   (* U+00E9 *)
+             mkT 33188 [97; 226; 128; 140; 98] (repeat 2 20);                      (* a U+200C b *)
+             mkT 33188 [240; 159; 152; 128; 46; 103; 105; 116] (repeat 3 20);      (* U+1F600 .git *)
+             mkT 40960 [120; 92; 121] (repeat 4 20);                               (* symlink x\y *)
+             mkT 33188 [99; 97; 102; 233; 46; 103; 105; 116; 255] (repeat 6 20);   (* Latin-1 "caf E9 .git FF": not UTF-8 *)
+             mkT 33188 [120; 92; 103; 105; 55; 101; 98; 97; 126; 49] (repeat 5 20) (* file x\gi7eba~1 *)] in
+  forallb name_guard es = true /\
+  match encode es with Some b => git_fsck_tree 20 b = [] | None => False end.
+Proof. vm_compute. split; reflexivity. Qed.
